@@ -26,6 +26,7 @@ RULE = (
     "x*c, x%c, keccak of words / of dynamic content, array length and elements, storage written by setUp, optional vm.assume; "
     "every second contract also has a counted loop with a symbolic trip count (while-shaped, and do-while-shaped whose back edge is "
     "the taken JUMPI side) failing only after exactly k iterations, run with a per-function --loop below / above k; "
+    "failures behind a JUMP to a JUMPDEST that follows a PUSH32 constant with embedded PUSH-opcode bytes (EIP-1967 slot, random); "
     "value-bearing CALLs (symbolic value) to reverting / accepting / conditionally reverting callees deployed by setUp, the failure "
     "swallowed, with assertions on balance(this) / balance(callee) that hold only with or only without the refund; "
     "tests where one sibling path learns x == c1 and the other re-reads x from calldata and fails for x == c2 (flat / nested, "
@@ -243,7 +244,7 @@ def make_jobs(ctx, specs, combos, sweep=40):
                 gen = e2e.gen_contract(random.Random(seed), name=name, pool=kw.get("pool", ()), ntests=kw.get("ntests", 3),
                                    bytes_sizes=kw.get("bytes_sizes"), array_sizes=kw.get("array_sizes"),
                                    panic_codes=kw.get("gen_panic_codes", (1,)), touch=kw.get("touch", False),
-                                   loops=kw.get("loops", False), siblings=kw.get("siblings"), subst=kw.get("subst"))
+                                   loops=kw.get("loops", False), siblings=kw.get("siblings"), subst=kw.get("subst"), jumps=kw.get("jumps"))
             cfg = {}
             if kw.get("panic_error_codes") is not None:
                 cfg["panic_error_codes"] = kw["panic_error_codes"]
@@ -426,6 +427,10 @@ def correspond(ctx):
                              {"learn_on": "taken", "deep": False, "use": "mem", "kind": "assertTrue"},
                              {"learn_on": "fall", "deep": False, "use": "mem", "kind": "panic"}]):
         specs.append((21 + j, f"Subst{j}", {"pool": pool, "ntests": 0, "subst": sub}))
+    # directed: the failure behind a JUMPDEST that follows a PUSH32 constant with embedded PUSH-opcode bytes
+    specs.append((41, "Jump0", {"pool": pool, "ntests": 0, "jumps": {"K": e2e.EIP1967_IMPL_SLOT, "use_k": "sload"}}))
+    specs.append((42, "Jump1", {"pool": pool, "ntests": 0, "jumps": {"use_k": "pop"}}))
+    specs.append((43, "Jump2", {"pool": pool, "ntests": 0, "jumps": {"use_k": "none"}}))
     # directed: value-bearing CALLs whose failure is swallowed, assertions on balances (refund of the value of a failed call)
     specs.append((31, "Val0", {"pool": pool, "value": [["revert", "self-minus-v"], ["revert", "self-same"], ["accept", "self-same"]]}))
     specs.append((32, "Val1", {"pool": pool, "value": [["odd-reverts", "callee-zero"], ["invalid", "callee-eq-v"], ["odd-reverts", "self-minus-v"]]}))
@@ -459,6 +464,8 @@ def correspond(ctx):
             kw["loops"] = True
         if i % 4 == 3:
             kw["subst"] = True
+        if i % 4 == 2:
+            kw["jumps"] = True
         if i % 8 == 6:
             kw = {"pool": pool, "value": True}
         if i % 6 == 5:
